@@ -519,9 +519,11 @@ def rule_R1(ctx):
         for f in own_nodes(fn):
             if isinstance(f, ast.For) and norm(f.iter) in ("data_streams", "sample.data_streams", "obj.data_streams") and isinstance(f.target, ast.Name):
                 v = f.target.id
-                for c in ast.walk(f):
-                    if isinstance(c, ast.Call) and norm(c.func) == f"{v}.stream.seek" and c.args and norm(c.args[0]) == "0" \
-                            and (len(c.args) > 1 and norm(c.args[1]) in ("SEEK_SET", "0", "io.SEEK_SET", "os.SEEK_SET")):
+                from .sem import straightline_ex, canon_ast
+                sl = straightline_ex(f.body)
+                for call, idx in sl["effects"]:
+                    if isinstance(call, ast.Call) and canon_ast(call.func) == f"{v}.stream.seek" and call.args and norm(call.args[0]) == "0" \
+                            and (len(call.args) > 1 and norm(call.args[1]) in ("SEEK_SET", "0", "io.SEEK_SET", "os.SEEK_SET")) and not sl["rest"]:
                         found = (fn, f)
     ok = found is not None
     det = ""
